@@ -74,7 +74,9 @@ def sector_values(x):
     """sector -> block with pending signs applied (copy)."""
     ph = D.phases_of(x)
     return {
-        s: (np.asarray(b) if ph.get(s, 1) == 1 else -np.asarray(b))
+        s: (np.asarray(b)
+            if ph.get(s, 1) == 1 or np.asarray(b).dtype == np.bool_
+            else -np.asarray(b))  # (a sign on boolean data means nothing)
         for s, b in x.blocks.items()
     }
 
